@@ -3083,6 +3083,18 @@ class Set(Collection):
                 if not is_reverse_call:
                     for undo_func in reversed(undo_funcs): undo_func()
                 raise
+        if is_reverse_call:
+            # the caller (e.g. a cascading delete) may still fail: this collection must be restorable too
+            saved_items, saved_count = set(setdata), setdata.count
+            saved_added = None if setdata.added is None else set(setdata.added)
+            saved_removed = None if setdata.removed is None else set(setdata.removed)
+            was_modified_earlier = obj in cache.modified_collections[attr]
+            def undo_func():
+                setdata.clear()
+                setdata.update(saved_items)
+                setdata.count, setdata.added, setdata.removed = saved_count, saved_added, saved_removed
+                if not was_modified_earlier: cache.modified_collections[attr].discard(obj)
+            undo_funcs.append(undo_func)
         setdata.clear()
         setdata |= new_items
         if setdata.count is not None: setdata.count = len(new_items)
